@@ -110,6 +110,11 @@ theorem C16_wf_iff_parseable (e : Expr) : e.WF ↔ ∃ toks r, parseExprTop toks
 theorem C16_parser_total (toks : List Tok) : parseUnit toks ≠ .error .fuel :=
   Spec_ne_fuel (parseUnit_spec toks)
 
+/-- Since the fix of the unchecked `static_cast<id_token *>` in `_statement` the model has no
+    place left that reports undefined behaviour of the C++: `PErr.ub` is unreachable. -/
+theorem C16_parser_no_ub (toks : List Tok) (w : String) : parseUnit toks ≠ .error (.ub w) :=
+  Spec_ne_ub (parseUnit_spec toks) w
+
 theorem C16_parser_total_of_eof (pre : List Tok) :
     (∃ u, parseUnit (pre ++ [.sym .EOF]) = .ok u) ∨ (∃ m, parseUnit (pre ++ [.sym .EOF]) = .error (.msg m)) ∨
       parseUnit (pre ++ [.sym .EOF]) = .error .lexer ∨ (∃ w, parseUnit (pre ++ [.sym .EOF]) = .error (.ub w)) := by
